@@ -28,7 +28,11 @@ Inductive case :=
 (* Dial against several scripted brokers, attempts in launch order; any of the
    listed result schedules may have happened *)
 | CMulti (sequential : bool) (atts : list (bytes * list sev)) (scheds : list (list dev))
-         (ores : option dial_res) (ostat : list (peer * N)) (olaunched : option nat).
+         (ores : option dial_res) (ostat : list (peer * N)) (olaunched : option nat)
+(* the bytes one scripted connection sent: cap = maxControlAdSize, what the peer does after
+   them, the greeting term the harness uses for this connection in the other cases, and what the
+   real readReverseConnect + AdString delivered (None: not run; Some None: error; Some (Some c)) *)
+| CDecode (cap : Z) (tail : wire_tail) (w : bytes) (g : greeting) (obs : option (option bytes)).
 
 (* ---- helpers ------------------------------------------------------------- *)
 
@@ -168,6 +172,32 @@ Definition multi_ok (sequential : bool) (atts : list (bytes * list sev)) (sched 
   | _, _ => false
   end.
 
+(* two greeting terms the accept loop and the proxied check cannot tell apart *)
+Definition greeting_agrees (a b : greeting) : bool :=
+  match a, b with
+  | GHello c1 k1, GHello c2 k2 =>
+      if Z.eqb c1 ccb_reverse_connect
+      then Z.eqb c2 ccb_reverse_connect && bytes_eqb (ad_string k1) (ad_string k2)
+      else negb (Z.eqb c2 ccb_reverse_connect)
+  | GHello c1 _, GMalformed | GMalformed, GHello c1 _ => negb (Z.eqb c1 ccb_reverse_connect)
+  | GMalformed, GMalformed | GClosed, GClosed | GStall, GStall => true
+  | _, _ => false
+  end.
+
+Definition decode_ok (cap : Z) (tail : wire_tail) (w : bytes) (g : greeting) (obs : option (option bytes)) : bool :=
+  let d := decode_wire simple_parses simple_claim_of cap tail w in
+  negb (decode_panics simple_parses simple_claim_of cap w) &&
+  greeting_agrees d g &&
+  match obs with
+  | None => true
+  | Some None => match d with GHello cmd _ => negb (Z.eqb cmd ccb_reverse_connect) | _ => true end
+  | Some (Some c) =>
+      match d with
+      | GHello cmd k => Z.eqb cmd ccb_reverse_connect && bytes_eqb (ad_string k) c
+      | _ => false
+      end
+  end.
+
 Definition check_case (c : case) : bool :=
   match c with
   | CIds ids => forallb id_ok ids && nodup_bytes ids
@@ -186,6 +216,7 @@ Definition check_case (c : case) : bool :=
       ostreaming && Bool.eqb oroute nested
   | CMulti sequential atts scheds ores ostat olaunched =>
       existsb (fun s => multi_ok sequential atts s ores ostat olaunched) scheds
+  | CDecode cap tail w g obs => decode_ok cap tail w g obs
   end.
 
 Fixpoint mism (i : nat) (cs : list case) : list nat :=
